@@ -215,7 +215,7 @@ void mc_jobs(Tier t, std::vector<std::string> &jobs)
 	for (int f = 0; f < 5; ++f) for (int len = 1; len <= Lq(t); ++len) for (size_t a = 0; a < sizeof ALPHA; ++a) jobs.push_back(fmt("%d:%d:%zu", f, len, a));
 	for (int f = 0; f < 5; ++f) for (size_t g : {1, 16}) for (int len = 1; len < Lq(t); ++len) for (size_t a = 0; a < sizeof ALPHA; ++a) jobs.push_back(fmt("%d:%d:%zu:%zu", f, len, a, g));
 	// family A with empty iovecs in the vector handed to the decoder: job = decoder : length : first byte : 0 : 1
-	for (int f = 0; f < 5; ++f) for (int len = 1; len <= Lq(t); ++len) for (size_t a = 0; a < sizeof ALPHA; ++a) jobs.push_back(fmt("%d:%d:%zu:0:1", f, len, a));
+	for (int f = 0; f < 5; ++f) for (int len = 1; len <= 4; ++len) for (size_t a = 0; a < sizeof ALPHA; ++a) jobs.push_back(fmt("%d:%d:%zu:0:1", f, len, a));   // length <= 4 in both tiers (budget)
 	// family B (long single blocks around every code boundary): job = decoder : -(code index+1) : 0
 	for (int f = 0; f < 4; ++f) for (int ci = 0; ci < 9; ++ci) jobs.push_back(fmt("%d:%d:0", f, -(ci + 1)));
 }
